@@ -150,8 +150,12 @@ func propVerify(t *rapid.T) {
 		t.Fatalf("NewSchnorrPublicKey(%x) rejected a valid x-only key: %v", pk2, err)
 	}
 	var got bool
-	if p := lib.Catch(func() { got = key.Verify(msg2, sig) }); p != nil {
+	adj, unchanged := gen.Adjacent(msg2, sig) // arguments sliced out of one caller buffer
+	if p := lib.Catch(func() { got = key.Verify(adj[0], adj[1]) }); p != nil {
 		t.Fatalf("Verify panicked: %v", p)
+	}
+	if !unchanged() {
+		t.Fatalf("Verify modified its caller's buffer (msg %x, sig %x)", msg2, sig)
 	}
 	if got != want {
 		t.Fatalf("Verify(pk=%x, msg=%x, sig=%x) = %v, BIP-340 says %v [%s/%s]", pk2, msg2, sig, got, want, how, edit)
